@@ -745,6 +745,20 @@ def scripted(big=False):
                             O('iterate', d='d0'), O('label', v='v0')] + epilogue()
         add('S31-' + gname, (dict(vols=[v]), upc, bounds), ops, upc, chk='listing')
 
+    # S32: the application edits the medium itself through `VolumeManager::device` (the name bytes of a closed file's entry, in the
+    # block the library has just read) between two listings: listings, lookups and opens afterwards answer for the medium as it is now
+    for gname in ['G16a', 'G32a', 'G16c']:
+        img = image_of(gname, tree='T2', nfree=4)
+        upc = img[1]
+        ops = prologue() + [O('iterate', d='d0'), O('ext_rename', d='d0', name='A.TXT', to='RENAMED.TXT'), O('iterate', d='d0'),
+                            O('find', d='d0', name='RENAMED.TXT'), O('find', d='d0', name='A.TXT'),
+                            O('open_file', d='d0', name='RENAMED.TXT', mode='ReadOnly', as_='f0'), O('read', f='f0', n=upc), O('close_file', f='f0'),
+                            O('open_dir', d='d0', name='SUB', as_='d1'), O('find', d='d1', name='F11.Z'), O('ext_rename', d='d1', name='F11.Z', to='G11.Z'),
+                            O('find', d='d1', name='G11.Z'), O('find', d='d1', name='F11.Z'), O('iterate', d='d1'),
+                            O('ext_rename', d='d1', name='G11.Z', to='H11.Z'), O('open_file', d='d1', name='H11.Z', mode='ReadWriteAppend', as_='f1'),
+                            O('write', f='f1', n=1), O('close_file', f='f1'), O('iterate', d='d1'), O('close_dir', d='d1')] + epilogue()
+        add('S32-' + gname, img, ops, upc)
+
     # S7: several volumes at once
     img = image_multi()
     upc = img[1]
